@@ -66,10 +66,20 @@ def run(ctx):
     # ---- R8.1
     for fld, table, nm in ((MY, WRITERS_MY, "my_tokens"), (CH, WRITERS_CH, "cheats")):
         w = writers(prog, fld)
+        found = {k for k in w if k in table}
         for k in sorted(w):
-            ctx.ob("R8.1", "writer-of-%s|%s" % (nm, k), k in table, where=ctx.where(prog.bodies[k], w[k][0]),
-                   detail=("audited: " + table[k]) if k in table else "body writes ServerState.%s but is not one of the audited accounting functions" % nm)
-        ctx.floor("R8.1", "writers of %s" % nm, len([k for k in w if k in table]), len(table))
+            ok, det = k in table, ("audited: " + table[k]) if k in table else "body writes ServerState.%s but is not one of the audited accounting functions" % nm
+            if not ok and nm == "my_tokens" and "jobserver::ServerState::destroy_tokens" in table:
+                # an audited accounting operation written out in place of the call: every write of the body is the
+                # effect of destroy_tokens (guarded `my_tokens -= n`), which any body may already invoke by calling it
+                b = prog.bodies[k]
+                ds = set(destroy_sites(prog, b, inline_only=True))
+                if ds and not anchors.agg_sites(b, r"jobserver::ServerState") and all(bb in ds for bb, _, _ in field_writes(b, fld)):
+                    ok, det = True, "audited effect in place: " + table["jobserver::ServerState::destroy_tokens"] + " (my_tokens -= n under assert my_tokens >= n)"
+                    if "jobserver::ServerState::destroy_tokens" not in prog.bodies:
+                        found.add("jobserver::ServerState::destroy_tokens")
+            ctx.ob("R8.1", "writer-of-%s|%s" % (nm, k), ok, where=ctx.where(prog.bodies[k], w[k][0]), detail=det)
+        ctx.floor("R8.1", "writers of %s" % nm, len(found), len(table))
         refs = [(b.key, bb) for b in prog.bodies.values() for bb, _ in field_mut_refs(b, fld)]
         ctx.ob("R8.1", "no-&mut-of-%s" % nm, not refs, where=", ".join("%s bb%d" % r for r in refs[:3]),
                detail="no mutable borrow of the counter escapes" if not refs else "counter is mutably borrowed (writes through the reference are not audited)")
@@ -85,84 +95,91 @@ def run(ctx):
            detail="my_tokens and cheats are increased by the same operand" if same else "cheat arm does not add the same amount to my_tokens and cheats")
 
     # ---- R8.2
+    # who performs pipe I/O. write_tokens is a wrapper of unistd::write used by release / do_force_return_tokens:
+    # whether those two go through it or write themselves is the same effect, so they are audited writers too
+    # (what release writes is judged by the pairing rule below, what do_force_return_tokens writes by the
+    # cheat-pipe rule); when the wrapper does not exist nobody can call it.
+    PIPE_WRITERS = {"jobserver::ServerState::release", "jobserver::JobServer::do_force_return_tokens"}
     who = {
-        r"jobserver::write_tokens": {"jobserver::ServerState::release", "jobserver::JobServer::do_force_return_tokens"},
-        r"jobserver::try_read": {"jobserver::JobServer::block_on", "jobserver::AllJobsDone::test_tokens"},
-        r"nix::unistd::write": {"jobserver::write_tokens", "jobserver::AllJobsDone::test_tokens"},
-        r"nix::unistd::read": {"jobserver::try_read", "builder::StdinLogReaderBuilder::start"},
+        r"jobserver::write_tokens": (PIPE_WRITERS, "jobserver::write_tokens" in prog.bodies),
+        r"jobserver::try_read": ({"jobserver::JobServer::block_on", "jobserver::AllJobsDone::test_tokens"}, True),
+        r"nix::unistd::write": ({"jobserver::write_tokens", "jobserver::AllJobsDone::test_tokens"} | PIPE_WRITERS, True),
+        r"nix::unistd::read": ({"jobserver::try_read", "builder::StdinLogReaderBuilder::start"}, True),
     }
-    for rx, allowed in who.items():
+    for rx, (allowed, must_exist) in who.items():
         callers = {b.key for b in anchors.bodies_calling(prog, rx) if b.key.startswith(("jobserver::", "builder::", "state::"))}
-        ctx.ob("R8.2", "who-calls|%s" % rx, callers <= allowed and bool(callers), detail="callers: %s" % sorted(callers),
+        ctx.ob("R8.2", "who-calls|%s" % rx, callers <= allowed and (bool(callers) or not must_exist), detail="callers: %s" % sorted(callers),
                where=", ".join(prog.bodies[c].span for c in sorted(callers - allowed)))
     rel = prog.one(r"jobserver::ServerState::release")
     rba = BA.of(rel)
-    wt = rba.calls(r"jobserver::write_tokens")
+    # every byte count release hands to the pipe (write_tokens(fd, n) or a write of a buffer built from n) is the
+    # local incremented exactly on the non-cheat side; per released token my_tokens is decremented once
+    wt = rba.calls(PIPE_WRITE)
     ok = False
     det = "write_tokens operand is not the count of non-cheat decrements"
-    if len(wt) == 1:
-        cnt = op_local(rel.blocks[wt[0]]["term"]["args"][1])
-        sl, _, _ = backward_direct(rel, cnt)
-        # increments of the counter local
-        incs = []
-        for l in sl:
-            for d in rba.defs.get(l, []):
-                if d[0] == "stmt" and d[3]["k"] == "binop" and d[3]["op"].startswith("Add") and const_int(d[3]["b"]) == 1:
-                    incs.append(d[1])
-        # the cheats > 0 test
-        chsw = [(sw, t_t, f_t) for (sw, t_t, f_t, k, info) in cmp_field_switches(rel, "jobserver::ServerState.cheats", "Gt", 0)]
+    if wt:
+        incs = set()
+        per_write = True
+        for wb in wt:
+            mine = written_count_increments(rel, wb)
+            per_write = per_write and bool(mine)
+            incs |= mine
+        chsw = positive_switches(rel, "jobserver::ServerState.cheats")
         decs_my = [bb for bb, _, s in field_writes(rel, MY)]
         decs_ch = [bb for bb, _, s in field_writes(rel, CH)]
-        if len(chsw) == 1 and incs and decs_my and decs_ch:
+        if len(chsw) == 1 and per_write and incs and decs_my and decs_ch:
             sw, t_t, f_t = chsw[0]
             ok = (all(rba.edge_dominates((sw, f_t), i) for i in incs)
                   and all(rba.edge_dominates((sw, t_t), i) for i in decs_ch)
-                  and all(rba.dominates(d, sw) for d in decs_my))
+                  and paired_per_pass(rba, decs_my, sorted(incs | set(decs_ch)), list(wt) + rba.returns()))
             det = "per released token: my_tokens -= 1 always; cheats -= 1 on the cheat side; shared count += 1 exactly on the other side"
     ctx.ob("R8.2", "release|shares-non-cheat-decrements", ok, where=rel.span, detail=det)
     bo = anchors.event_loop(prog)
     bba = BA.of(bo)
     incs = [(bb, j, s) for bb, j, s in field_writes(bo, MY)]
-    ok = False
+    treads = fd_calls(bo, r"jobserver::try_read", "jobserver::ServerParams.token_fds")
+    ok = bool(incs) and bool(treads)
     det = "token read and my_tokens increment are not paired"
-    if len(incs) == 1:
-        ib = incs[0][0]
-        treads = [i for i in bba.calls(r"jobserver::try_read") if bba.dominates(i, ib)]
-        # dominated by the `Some(1)` arm of the read result
-        one_arm = False
-        for sw in sorted(bba.live):
-            t = bo.blocks[sw]["term"]
-            if t["t"] == "switch" and t["discr_ty"] == "usize":
-                for v, tg in t["arms"]:
-                    if v == 1 and bba.edge_dominates((sw, tg), ib):
-                        one_arm = True
-        amt = add_operand(bo, incs[0])
-        ok = len(treads) >= 1 and one_arm and amt == ("int", 1)
-        det = "my_tokens += 1 exactly in the arm where one byte was read from the token pipe" if ok else det
+    for w in incs:
+        ib = w[0]
+        u = counter_update(bo, w)
+        # on the `one byte read` edge of a test of a token-pipe read's result, and only once per read
+        one = False
+        for tr in treads:
+            if not bba.dominates(tr, ib):
+                continue
+            res = taint(bo, seeds={bo.blocks[tr]["term"]["dest"]["l"]}, mode="direct")
+            if any(bba.dominates(tr, e[0]) and bba.edge_dominates(e, ib) for e in common.eq_const_edges(bo, lambda l: l in res, 1)):
+                one = True
+        again = bba.path([ib], [x[0] for x in incs], avoid=frozenset(treads))
+        ok = ok and one and u is not None and u[0] == "+" and const_int(u[1]) == 1 and again is None
+    if ok:
+        det = "my_tokens += 1 exactly in the arm where one byte was read from the token pipe"
     ctx.ob("R8.2", "block_on|token-read-increments-once", ok, where=ctx.where(bo, incs[0][0]) if incs else bo.span, detail=det)
     frt = prog.one(r"jobserver::JobServer::do_force_return_tokens")
     fba = BA.of(frt)
-    wt = fba.calls(r"jobserver::write_tokens")
-    dt = fba.calls(r"jobserver::ServerState::destroy_tokens")
-    ok = len(wt) == 1 and dt and all(fba.dominates(d, wt[0]) for d in dt)
+    wt = fd_calls(frt, PIPE_WRITE, "jobserver::ServerParams.cheat_fds")
+    dt = destroy_sites(prog, frt)
+    # (every pipe write of this function is such a cheat-pipe write: it returns real tokens only through release)
+    ok = bool(wt) and bool(dt) and all(any(fba.dominates(d, x) for d in dt) for x in wt) and set(fba.calls(PIPE_WRITE)) == set(wt)
     ctx.ob("R8.2", "force_return|cheat-pipe-after-destroy", bool(ok), where=frt.span,
            detail="cheat pipe is written only after destroy_tokens(cheats)" if ok else "cheat byte written without destroying the cheated token")
 
     # the top-level self-test puts back exactly what it took out
     tt = prog.one(r"jobserver::AllJobsDone::test_tokens")
     tba = BA.of(tt)
-    wr = tba.calls(r"nix::unistd::write")
-    trs = tba.calls(r"jobserver::try_read")
+    wr = fd_calls(tt, r"nix::unistd::write", "jobserver::ServerParams.token_fds")
+    trs = fd_calls(tt, r"jobserver::try_read", "jobserver::ServerParams.token_fds")
     ok = False
     det = "write-back not recognised"
-    if len(wr) == 1 and len(trs) == 2:
+    if len(wr) == 1 and len(trs) == 1:
         sl, org, _ = backward_direct(tt, op_local(tt.blocks[wr[0]]["term"]["args"][1]), depth=60)
         idx = [o for o in org if o[0] == "call" and any("ops::index::Index" in p_ for p_ in callee_paths(o[2]))]
         if idx:
             buf = tba.base_local_of_ref(op_local(idx[0][2]["args"][0]))
             rng = op_local(idx[0][2]["args"][1])
             rsl, rorg, _ = backward_direct(tt, rng, depth=60)
-            # the range end derives from the try_read whose buffer is the same array, on the token pipe (first read)
+            # the range end derives from the try_read of the token pipe whose buffer is the same array
             first = trs[0]
             same_buf = tba.base_local_of_ref(op_local(tt.blocks[first]["term"]["args"][1])) == buf
             cnt = taint(tt, seeds={tt.blocks[first]["term"]["dest"]["l"]}, mode="direct", through=re.compile(r"core::option::Option::unwrap_or"))
@@ -174,51 +191,47 @@ def run(ctx):
     st = prog.one(r"jobserver::JobServerHandle::start")
     sba = BA.of(st)
     forks = sba.calls(r"nix::unistd::fork")
-    dts = [i for i in sba.calls(r"jobserver::ServerState::destroy_tokens") if const_int(st.blocks[i]["term"]["args"][1]) == 1]
-    ok = len(forks) == 1 and dts and any(sba.dominates(d, forks[0]) for d in dts)
+    dts = destroy_sites(prog, st, amount=1)
+    ok = bool(forks) and bool(dts) and all(any(sba.dominates(d, f) for d in dts) for f in forks)
     ctx.ob("R8.3", "start|destroy-before-fork", bool(ok), where=ctx.where(st, forks[0]) if forks else st.span,
            detail="destroy_tokens(1) dominates fork()" if ok else "a child is forked without destroying the parent's token")
     forkers = {b.key for b in anchors.bodies_calling(prog, r"nix::unistd::fork")}
     allowed = {"jobserver::JobServerHandle::start", "builder::StdinLogReaderBuilder::start", "state::LockManager::detect_broken_locks"}
     ctx.ob("R8.3", "who-forks", forkers <= allowed, detail="fork callers: %s" % sorted(forkers))
     # child-exit arm
-    creads = [i for i in bba.calls(r"jobserver::try_read")]
+    # Stated per child exit = per execution of the cheat-pipe read (the try_read whose fd operand is
+    # ServerParams.cheat_fds): until the job is forgotten (wait_fds.remove) or the next cheat read,
+    #   one byte read (the edge `count == 1` of a test of that read's result) => no create_tokens;
+    #   any other outcome => create_tokens before the job is forgotten;
+    # every create_tokens of the event loop is create_tokens(1) answering such a read.
+    creads = fd_calls(bo, r"jobserver::try_read", "jobserver::ServerParams.cheat_fds")
     cts = bba.calls(r"jobserver::ServerState::create_tokens")
     removes = bba.calls(r"std::collections::hash::map::HashMap::remove")
     ok = False
     det = "child-exit arm not recognised"
-    if len(creads) == 2 and len(cts) == 1 and removes:
-        cheat_read = [r for r in creads if bba.dominates(r, cts[0])]
-        if len(cheat_read) == 1:
-            cr = cheat_read[0]
-            ct = cts[0]
-            one = const_int(bo.blocks[ct]["term"]["args"][1]) == 1
-            # the arm where a byte was read (value 1) must not reach create_tokens before the job is forgotten
-            eat = None
-            for sw in sorted(bba.live):
-                t = bo.blocks[sw]["term"]
-                if t["t"] == "switch" and t["discr_ty"] == "usize" and bba.dominates(cr, sw):
-                    for v, tg in t["arms"]:
-                        if v == 1:
-                            eat = (sw, tg)
-            if eat is not None:
-                sw, tg = eat
-                p = bba.path([tg], [ct], avoid=frozenset(removes), incl=True)
-                # the other outcomes reach create_tokens before remove
-                others = [s for s in bo.succ(sw) if s != tg]
-                q = None
-                for o in others:
-                    if bo.blocks[o]["term"]["t"] == "unreachable":
-                        continue
-                    r = bba.reach_incl([o], avoid=frozenset([ct]))
-                    if any(x in r for x in removes) and not is_panic_path(bo, o):
-                        q = o
-                # None / Some(0) outcome (Ok(None) is a different switch level): paths from cheat read to remove avoiding create must go through the eat arm only
-                r2 = bba.reach_from([cr], avoid=frozenset([ct, tg]))
-                leak = [x for x in removes if x in r2]
-                ok = one and p is None and not leak
-                det = ("cheat byte read => no create_tokens; otherwise exactly create_tokens(1); both before wait_fds.remove" if ok else
-                       "child exit can %s" % ("recreate a token although a cheat byte was eaten" if p is not None else "forget the job without recreating its token"))
+    if creads and cts and removes:
+        ok = True
+        for ct in cts:
+            if const_int(bo.blocks[ct]["term"]["args"][1]) != 1 or not any(bba.dominates(cr, ct) for cr in creads):
+                ok = False
+                det = "the event loop creates tokens other than the one token of an exited child"
+        for cr in creads:
+            res = taint(bo, seeds={bo.blocks[cr]["term"]["dest"]["l"]}, mode="direct")
+            eat = [e for e in common.eq_const_edges(bo, lambda l: l in res, 1) if bba.dominates(cr, e[0])]
+            if not eat:
+                ok = False
+                det = "child-exit arm not recognised (no test of the cheat-pipe read for one byte)"
+                continue
+            tgs = [tg for _, tg in eat]
+            p = bba.path(tgs, cts, avoid=frozenset(removes) | {cr}, incl=True)
+            # every other outcome of the read recreates the token before the job is forgotten
+            r2 = bba.reach_from([cr], avoid=frozenset(cts) | frozenset(tgs) | {cr})
+            leak = [x for x in removes if x in r2]
+            if p is not None or leak:
+                ok = False
+                det = "child exit can %s" % ("recreate a token although a cheat byte was eaten" if p is not None else "forget the job without recreating its token")
+        if ok:
+            det = "cheat byte read => no create_tokens; otherwise exactly create_tokens(1); both before wait_fds.remove"
     ctx.ob("R8.3", "block_on|child-exit-token-recreated-xor-cheat-eaten", ok, where=ctx.where(bo, cts[0]) if cts else bo.span, detail=det)
     surplus_released(ctx, "R8.3")
 
@@ -231,7 +244,7 @@ def run(ctx):
     # ---- R8.8
     S = anchors.scheduler(prog)
     s_ba = BA.of(S)
-    cw = classify_waits(S)
+    cw = classify_waits(S, prog)
     gains = {r for _, r in cw["gain"] if r is not None}
     ends = common.ok_returns(S) or s_ba.returns()
     pts = [("wait_all-resume", r, p) for p, r in cw["loss"] if r is not None]
@@ -248,20 +261,21 @@ def run(ctx):
     # ---- R8.9
     su = prog.one(r"jobserver::JobServer::setup")
     uba = BA.of(su)
-    msw = None
-    for sw in sorted(uba.live):
-        t = su.blocks[sw]["term"]
-        if t["t"] == "switch" and t["discr_ty"] == "i32" and op_local(t["discr"]) == 1:
-            msw = (sw, {v: tg for v, tg in t["arms"]}, t["otherwise"])
-    somes = [i for i in common.blocks_with_agg(su, r"core::option::Option", "Some") if any(
-        s_["s"] == "assign" and s_["rv"]["k"] == "agg" and s_["rv"].get("variant") == "Some" and "(i32, i32)" in su.locals[s_["place"]["l"]] and su.local_name(s_["place"]["l"]) == "token_fds"
-        for s_ in su.blocks[i]["stmts"])]
-    ok = False
-    if msw and somes:
-        sw, arms, other = msw
-        z = arms.get(0)
-        ok = z is not None and all(uba.edge_dominates((sw, z), x) for x in somes) and z != other and arms.get(1) != z
-    ctx.ob("R8.9", "setup|inherited-pipe-only-for-j0", ok, where=su.span,
+    # the points where the pipe parsed from MAKEFLAGS is *chosen* as this server's token pipe: `Some(..)` values
+    # built from the parse_makeflags payload that flow into ServerParams.token_fds. Each must lie on the
+    # `max_jobs == 0` side of a test of the function's argument (whatever the idiom: match arm, ==, !=, !).
+    eq0 = common.eq_const_edges(su, lambda l: l is not None and common.copy_root(su, l) == 1, 0)
+    inherited = taint(su, src_call=lambda t_: call_matches(t_, r"jobserver::parse_makeflags"), mode="direct")
+    fidx = adt_field_index(prog, "jobserver::ServerParams", "token_fds")
+    used = set()
+    for _, _, s_ in anchors.agg_sites(su, r"jobserver::ServerParams"):
+        if fidx is not None and fidx < len(s_["rv"]["ops"]) and op_local(s_["rv"]["ops"][fidx]) is not None:
+            used |= backward_direct(su, op_local(s_["rv"]["ops"][fidx]), depth=200)[0]
+    somes = sorted({i for i, _, s_ in anchors.agg_sites(su, r"core::option::Option")
+                    if s_["rv"].get("variant") == "Some" and not s_["place"]["p"] and s_["place"]["l"] in used
+                    and any(op_local(o) in inherited for o in s_["rv"]["ops"])})
+    ok = bool(eq0) and bool(somes) and all(any(uba.edge_dominates(e, x) for e in eq0) for x in somes)
+    ctx.ob("R8.9", "setup|inherited-pipe-only-for-j0", ok, where=ctx.where(su, somes[0]) if somes else su.span,
            detail="token_fds = Some(inherited pipe) only on the max_jobs == 0 arm" if ok else "an explicit -j1/-jN keeps using the parent's token pipe: the requested limit is ignored below it")
     ct = uba.calls(r"jobserver::ServerState::create_tokens")
     ok = False
@@ -289,12 +303,18 @@ def run(ctx):
             ok = p is None
     ctx.ob("R8.6", "Drop-for-JobServer|returns-tokens-unless-done", ok, where=dj[0].span if dj else "",
            detail="drop() calls do_force_return_tokens unless already done" if ok else "JobServer can be dropped without returning its tokens")
-    for key in (r"@bin::ifchange::run::\{closure#0\}", r"@bin::run_redo::\{closure#0\}"):
-        b = prog.one(key)
+    # the bodies that drive a JobServer (call block_on), found by that role: closure ordinals under the two
+    # commands change when an unrelated closure is added before them. Both commands must have one.
+    drivers = anchors.bodies_calling(prog, r"jobserver::JobServer::block_on")
+    for parent in ("@bin::ifchange::run", "@bin::run_redo"):
+        if not any(b.key == parent or b.key.startswith(parent + "::") for b in drivers):
+            ctx.ob("R8.6", "%s|force_return_tokens-after-block_on" % parent, False, where="",
+                   detail="no body under %s calls JobServer::block_on: the command's token return path was not found" % parent)
+    for b in drivers:
         ba = BA.of(b)
         bos = ba.calls(r"jobserver::JobServer::block_on")
         frs = ba.calls(r"jobserver::JobServer::force_return_tokens")
-        ok = len(bos) == 1 and frs and ba.path(bos, ba.returns(), avoid=frozenset(frs)) is None
+        ok = bool(bos) and bool(frs) and ba.path(bos, ba.returns(), avoid=frozenset(frs)) is None
         ctx.ob("R8.6", "%s|force_return_tokens-after-block_on" % b.key, bool(ok), where=b.span,
                detail="every return after block_on passes force_return_tokens" if ok else "a path after block_on returns without force_return_tokens (only Drop remains)")
     S = anchors.scheduler(prog)
@@ -317,7 +337,10 @@ def run(ctx):
     # ---- R8.7
     poll = prog.one(r"<jobserver::AllJobsDone as core::future::future::Future>::poll")
     pba = BA.of(poll)
-    rm = pba.calls(r"jobserver::ServerState::release_mine")
+    # releases of one token that may be the process's last one: release_mine / release(fds, 1), except where the
+    # process is known to hold at least two (the surplus loop `while my_tokens >= 2 { release(fds, 1) }`)
+    plenty = ge_edges(poll, "jobserver::ServerState.my_tokens", at_least=2)
+    rm = [r for r in release_sites(poll, "one") if not any(pba.edge_dominates(e, r) for e in plenty)]
     running = pba.switches_on_call(r"jobserver::ServerState::is_running")
     ok = False
     if rm and running:
@@ -334,6 +357,238 @@ def run(ctx):
            detail="test_tokens() is dominated by is_running() == false" if ok else "token self-test may run while children still hold tokens")
 
 
+PIPE_WRITE = r"jobserver::write_tokens|nix::unistd::write"
+
+
+def written_count_increments(body, wb):
+    """Blocks holding a `+ 1` on a local from which the amount written by the pipe write at block wb is
+    computed: the count operand of write_tokens(fd, n), or the buffer of write(fd, &buf) (derived flow through
+    the calls that build the buffer, e.g. repeat(b).take(n).collect())."""
+    ba = BA.of(body)
+    t = body.blocks[wb]["term"]
+    if len(t["args"]) < 2 or op_local(t["args"][1]) is None:
+        return set()
+    seen, st, out = set(), [op_local(t["args"][1])], set()
+    while st and len(seen) < 80:
+        x = st.pop()
+        if x in seen or x is None:
+            continue
+        seen.add(x)
+        for d in ba.defs.get(x, []):
+            if d[0] == "stmt":
+                rv = d[3]
+                if rv["k"] == "binop" and rv["op"].startswith("Add") and const_int(rv["b"]) == 1:
+                    out.add(d[1])
+                st.extend(p["l"] for p in rvalue_places(rv))
+            elif d[0] == "call":
+                st.extend(op_local(a) for a in d[2]["args"])
+    return out
+
+
+def positive_switches(body, field):
+    """[(switch_bb, positive_target, non_positive_target)] for bool switches testing `field > 0` in any
+    spelling (`> 0`, `>= 1`, `<= 0`, `< 1`, operands either way round, through `!`)."""
+    ba = BA.of(body)
+    out = []
+    for i in sorted(ba.live):
+        bs = ba.bool_switch(i)
+        if not bs:
+            continue
+        t_t, f_t, (kind, info) = bs
+        if kind != "binop" or t_t == f_t:
+            continue
+        rv = info[1]
+        op, a, b = rv["op"], rv["a"], rv["b"]
+        if const_int(a) is not None and const_int(b) is None:
+            a, b = b, a
+            op = {"Lt": "Gt", "Gt": "Lt", "Le": "Ge", "Ge": "Le"}.get(op, op)
+        k = const_int(b)
+        if k is None or not common.reads_field(body, {"k": "use", "op": a}, field):
+            continue
+        if (op, k) in (("Gt", 0), ("Ge", 1)):
+            out.append((i, t_t, f_t))
+        elif (op, k) in (("Le", 0), ("Lt", 1)):
+            out.append((i, f_t, t_t))
+    return out
+
+
+def paired_per_pass(ba, A, B, exits):
+    """Along every path from the entry to a block of `exits`, blocks of A and blocks of B strictly alternate
+    and are equal in number (each A event is paired with exactly one B event, in either fixed order)."""
+    A, B = set(A), set(B)
+    if not A or not B or A & B:
+        return False
+    if ba.path(sorted(A), A, avoid=frozenset(B)) is not None or ba.path(sorted(B), B, avoid=frozenset(A)) is not None:
+        return False
+    a_first = ba.path([0], A, avoid=frozenset(B), incl=True) is not None
+    b_first = ba.path([0], B, avoid=frozenset(A), incl=True) is not None
+    if a_first == b_first:
+        return False
+    first, second = (A, B) if a_first else (B, A)
+    return ba.path(sorted(first), exits, avoid=frozenset(second)) is None
+
+
+def counter_update(body, w):
+    """For a field write w = (bb, idx, stmt) of the form `X.f = X.f (+|-) k` (directly or through the
+    checked-arithmetic temporary): ('+'|'-', operand k). None for any other assignment."""
+    bb, j, s = w
+    ba = BA.of(body)
+    fld = place_fields(s["place"])[-1]
+    rv = s["rv"]
+    b = None
+    if rv["k"] == "binop":
+        b = rv
+    elif rv["k"] == "use":
+        p = op_place(rv["op"])
+        d = ba.single_def(p["l"]) if p is not None else None
+        if d and d[0] == "stmt" and d[3]["k"] == "binop":
+            b = d[3]
+    if b is None or not b["op"].startswith(("Add", "Sub")):
+        return None
+    if not common.reads_field(body, {"k": "use", "op": b["a"]}, fld):
+        return None
+    return ("+" if b["op"].startswith("Add") else "-", b["b"])
+
+
+def same_amount(body, o1, o2):
+    """Two operands denote the same amount: equal integer constants or copies of one local."""
+    k1, k2 = const_int(o1), const_int(o2)
+    if k1 is not None or k2 is not None:
+        return k1 == k2
+    l1, l2 = op_local(o1), op_local(o2)
+    return l1 is not None and l2 is not None and common.copy_root(body, l1) == common.copy_root(body, l2)
+
+
+def panics_straight(body, bb):
+    """Block bb leads without branching to a call of a panic entry point."""
+    cur = bb
+    for _ in range(8):
+        t = body.blocks[cur]["term"]
+        if t["t"] == "call":
+            if any(re.match(r"core::panicking::|std::rt::begin_panic|std::panicking::", p) for p in callee_paths(t)):
+                return True
+            if "target" not in t:
+                return False
+            cur = t["target"]
+        elif t["t"] == "goto":
+            cur = t["target"]
+        else:
+            return False
+    return False
+
+
+def ge_edges(body, field, amount=None, at_least=None):
+    """Edges [(switch_bb, target)] on which `<place under field> >= amount` is known to hold (amount an
+    operand compared by same_amount) or, with at_least=k, on which the field is known to be >= k."""
+    ba = BA.of(body)
+    out = []
+    for i in sorted(ba.live):
+        bs = ba.bool_switch(i)
+        if not bs:
+            continue
+        t_t, f_t, (kind, info) = bs
+        if kind != "binop" or t_t == f_t:
+            continue
+        rv = info[1]
+        op = rv["op"]
+        a, b = rv["a"], rv["b"]
+        if common.reads_field(body, {"k": "use", "op": b}, field) and not common.reads_field(body, {"k": "use", "op": a}, field):
+            a, b = b, a
+            op = {"Lt": "Gt", "Gt": "Lt", "Le": "Ge", "Ge": "Le"}.get(op, op)
+        elif not common.reads_field(body, {"k": "use", "op": a}, field):
+            continue
+        # now: field <op> b
+        if amount is not None:
+            if not same_amount(body, b, amount):
+                continue
+            if op == "Ge":
+                out.append((i, t_t))
+            elif op == "Lt":
+                out.append((i, f_t))
+        else:
+            k = const_int(b)
+            if k is None:
+                continue
+            if (op == "Ge" and k >= at_least) or (op == "Gt" and k >= at_least - 1) or (op == "Eq" and k >= at_least):
+                out.append((i, t_t))
+            elif (op == "Lt" and k >= at_least) or (op == "Le" and k >= at_least - 1):
+                out.append((i, f_t))
+    return out
+
+
+def destroy_sites(prog, body, amount=None, inline_only=False):
+    """Blocks of `body` where n owned tokens are destroyed: calls of ServerState::destroy_tokens, or its
+    effect written out in place (`my_tokens -= n` on the `my_tokens >= n` side of an assertion of the same n:
+    what destroy_tokens does). amount: only sites destroying exactly that constant number."""
+    ba = BA.of(body)
+    out = []
+    for i in ([] if inline_only else ba.calls(r"jobserver::ServerState::destroy_tokens")):
+        if amount is None or const_int(body.blocks[i]["term"]["args"][1]) == amount:
+            out.append(i)
+    for w in field_writes(body, MY):
+        u = counter_update(body, w)
+        if u is None or u[0] != "-":
+            continue
+        if amount is not None and const_int(u[1]) != amount:
+            continue
+        guards = [e for e in ge_edges(body, "jobserver::ServerState.my_tokens", amount=u[1])
+                  if ba.edge_dominates(e, w[0]) and any(panics_straight(body, s) for s in body.succ(e[0]) if s != e[1])]
+        if guards:
+            out.append(w[0])
+    return sorted(set(out))
+
+
+def release_sites(body, kind):
+    """Blocks of `body` that give tokens back through ServerState::release, by what they release:
+    'surplus'  everything but the own token: release_except_mine(fds), or release(fds, n) with n computed as
+               `my_tokens - 1`;
+    'one'      one token: release_mine(fds), or release(fds, 1)."""
+    ba = BA.of(body)
+    out = []
+    if kind == "surplus":
+        out += ba.calls(r"jobserver::ServerState::release_except_mine")
+    else:
+        out += ba.calls(r"jobserver::ServerState::release_mine")
+    for i in ba.calls(r"jobserver::ServerState::release"):
+        args = body.blocks[i]["term"]["args"]
+        if len(args) < 3:
+            continue
+        n = args[2]
+        if const_int(n) is not None:
+            if kind == "one" and const_int(n) == 1:
+                out.append(i)
+            continue
+        l = common.copy_root(body, op_local(n))
+        d = ba.single_def(l) if l is not None else None
+        rv = d[3] if d and d[0] == "stmt" else None
+        if rv is not None and rv["k"] == "use" and op_place(rv["op"]) is not None and op_place(rv["op"])["p"]:
+            # `.0` of the checked-arithmetic pair
+            d2 = ba.single_def(op_place(rv["op"])["l"])
+            rv = d2[3] if d2 and d2[0] == "stmt" else None
+        if (kind == "surplus" and rv is not None and rv["k"] == "binop" and rv["op"].startswith("Sub") and const_int(rv["b"]) == 1
+                and common.reads_field(body, {"k": "use", "op": rv["a"]}, "jobserver::ServerState.my_tokens")):
+            out.append(i)
+    return sorted(set(out))
+
+
+def fd_calls(body, rx, field, arg=0):
+    """Blocks of `body` calling rx with an fd operand (argument `arg`) read from a place under `field`
+    (e.g. the token pipe: 'jobserver::ServerParams.token_fds'), through copies into locals."""
+    ba = BA.of(body)
+    return [i for i in ba.calls(rx)
+            if len(body.blocks[i]["term"]["args"]) > arg
+            and common.reads_field(body, {"k": "use", "op": body.blocks[i]["term"]["args"][arg]}, field)]
+
+
+def adt_field_index(prog, adt, field):
+    """Position of `field` among the fields of struct `adt` (= operand position in its aggregate), or None."""
+    a = prog.adts.get(adt)
+    if not a or len(a["variants"]) != 1:
+        return None
+    names = [f["name"] for f in a["variants"][0]["fields"]]
+    return names.index(field) if field in names else None
+
+
 def surplus_released(ctx, rid):
     """After a child's token is recreated the surplus goes back to the pipe before the next event is
     handled: create_tokens(1) -> has_token() -> release_except_mine, so that a wake-up that reaps
@@ -342,24 +597,22 @@ def surplus_released(ctx, rid):
     bo = anchors.event_loop(prog)
     ba = BA.of(bo)
     cts = ba.calls(r"jobserver::ServerState::create_tokens")
-    rel = ba.calls(r"jobserver::ServerState::release_except_mine")
+    rel = release_sites(bo, "surplus")
     removes = ba.calls(r"std::collections::hash::map::HashMap::remove")
-    hts = ba.switches_on_call(r"jobserver::ServerState::has_token")
+    # "holds a token" tests: has_token() or a comparison my_tokens >= 1 in any spelling -> (switch, token side)
+    tests = [(sw, t_t) for (sw, t_t, f_t, c) in ba.switches_on_call(r"jobserver::ServerState::has_token")]
+    tests += ge_edges(bo, "jobserver::ServerState.my_tokens", at_least=1)
     ok = False
-    if cts and rel and removes and hts:
-        ct = cts[0]
-        # the has_token test and the release come after the recreate and before the job is forgotten
-        ok = any(ba.dominates(ct, sw) and all(ba.edge_dominates((sw, t_t), r) for r in rel) for (sw, t_t, f_t, c) in hts)
-        p = ba.path([ct], removes, avoid=frozenset(sw for (sw, _, _, _) in hts))
-        ok = ok and p is None
+    if cts and rel and removes and tests:
+        ok = True
+        for ct in cts:
+            # the test and the release come after the recreate and before the job is forgotten
+            mine = [(sw, t_t) for (sw, t_t) in tests if ba.dominates(ct, sw) and any(ba.edge_dominates((sw, t_t), r) for r in rel)]
+            ok = ok and bool(mine) and ba.path([ct], removes, avoid=frozenset(sw for sw, _ in mine)) is None
+            ok = ok and all(ba.path([t_t], removes, avoid=frozenset(rel), incl=True) is None for _, t_t in mine)
     ctx.ob(rid, "%s|surplus-released-after-recreate" % bo.key, ok, where=ctx.where(bo, cts[0]) if cts else bo.span,
            detail="create_tokens(1) is followed by has_token() => release_except_mine() before the job is forgotten" if ok else
            "the surplus is not released after the child's token was recreated: two children reaped in one wake-up leave my_tokens == 2 and the `my_tokens == 1` assertions fire")
-
-
-def is_panic_path(body, bb):
-    t = body.blocks[bb]["term"]
-    return t["t"] == "call" and any(p.startswith("core::panicking::") for p in callee_paths(t))
 
 
 def in_child_arm(st, bb):
@@ -409,54 +662,139 @@ def add_operand(body, w):
     return None
 
 
-def cmp_field_switches(body, field, op, value):
-    """bool switches on `<place ending in field> <op> value`: [(sw, true_t, false_t, kind, info)]."""
-    ba = BA.of(body)
+POLL_FN = r"futures_util::future::poll_fn::poll_fn"
+POLL_CALL = r"futures_util::future::future::FutureExt::poll_unpin|.*future::future::Future::poll"
+
+
+def future_names(S, l):
+    """Callee paths of the calls that produced the future held in local `l` of S (through pins, refs, fuse);
+    the foreground future of builder::wait_for stands for the wait_for call."""
+    _, origins, _ = backward_direct(S, l, depth=200)
+    names = set()
+    todo = list(origins)
+    seen_calls = set()
+    while todo:
+        o = todo.pop()
+        if o[0] != "call" or o[1] in seen_calls:
+            continue
+        seen_calls.add(o[1])
+        names.update(callee_paths(o[2]))
+        if call_matches(o[2], r"builder::wait_for"):
+            # the foreground future of wait_for decides what this await waits for
+            _, org2, _ = backward_direct(S, op_local(o[2]["args"][0]), depth=200)
+            todo.extend(org2)
+    return names, origins
+
+
+def select_arms(prog, S, pbb, origins):
+    """An await of futures' `select!` (the awaited future is `poll_fn(closure)` where the closure holds one
+    sub-closure per selected future; sub-closure k polls its captured future and wraps a Ready value into
+    variant `_k` of the macro's result enum, on which the awaiting body then switches).
+    Returns [(block entered when the arm's future completed, local of S holding that future)] or None when
+    the await is not of that form. Nothing is read from names of locals: the arm <-> future correspondence is
+    the value flow closure upvar -> polled receiver -> Poll::map(<variant constructor>) -> switch arm."""
+    from core import closure_sites, upvar_index
+    pf = [o for o in origins if o[0] == "call" and call_matches(o[2], POLL_FN)]
+    if len(pf) != 1:
+        return None
+    _, org, _ = backward_direct(S, op_local(pf[0][2]["args"][0]), depth=40)
+    cl = [o for o in org if o[0] == "agg" and o[2].get("agg") == "closure"]
+    if len(cl) != 1:
+        return None
+    K = prog.bodies.get(strip_generics(cl[0][2]["def"]))
+    if K is None:
+        return None
+    kops = cl[0][2]["ops"]
+    kba = BA.of(K)
+    variant_future = {}
+    for (bb, j, dest, sk, ops) in closure_sites(K):
+        B = prog.bodies.get(sk)
+        if B is None or len(ops) != 1 or op_local(ops[0]) is None:
+            continue
+        # which upvar of K does the sub-closure capture?
+        pl = kba.resolve_ref(op_local(ops[0]))
+        uv = upvar_index(pl) if pl is not None else None
+        if uv is None or uv[0] >= len(kops):
+            continue
+        bba = BA.of(B)
+        for m in bba.calls(r"core::task::poll::Poll::map"):
+            mt = B.blocks[m]["term"]
+            c = op_const(mt["args"][1]) if len(mt["args"]) > 1 else None
+            if not c or "fn" not in c:
+                continue
+            sl, morg, _ = backward_direct(B, op_local(mt["args"][0]), depth=40)
+            polls = [o for o in morg if o[0] == "call" and call_matches(o[2], POLL_CALL)]
+            if len(polls) != 1:
+                continue
+            rsl, _, _ = backward_direct(B, op_local(polls[0][2]["args"][0]), depth=40)
+            if 1 not in rsl:
+                continue        # the polled receiver is not the captured future
+            variant_future[c["fn"].rsplit("::", 1)[-1]] = op_local(kops[uv[0]])
+    if not variant_future:
+        return None
+    # the switch on the await's result
+    ba = BA.of(S)
+    dest = S.blocks[pbb]["term"]["dest"]["l"]
+    # locals holding the await's value: `v = (poll_result as Ready).0` and whole-local moves of it
+    vals = set()
+    changed = True
+    while changed:
+        changed = False
+        for blk in S.blocks:
+            for s in blk["stmts"]:
+                if s["s"] != "assign" or s["place"]["p"] or s["rv"]["k"] != "use" or s["place"]["l"] in vals:
+                    continue
+                p = op_place(s["rv"]["op"])
+                if p is None:
+                    continue
+                if (p["l"] == dest and p["p"][:1] == ["as:Ready"] and len(p["p"]) == 2) or (p["l"] in vals and not p["p"]):
+                    vals.add(s["place"]["l"])
+                    changed = True
+    sws = []
+    for sw in sorted(ba.live):
+        t = S.blocks[sw]["term"]
+        if t["t"] != "switch" or not t.get("enum_variants"):
+            continue
+        es = ba.enum_switch(sw)
+        if not es or es[0]["p"]:
+            continue
+        if es[0]["l"] in vals:
+            sws.append((sw, t, es))
+    if len(sws) != 1:
+        return None
+    sw, t, (place, arms, other) = sws[0]
     out = []
-    for i in sorted(ba.live):
-        bs = ba.bool_switch(i)
-        if not bs:
-            continue
-        t_t, f_t, (kind, info) = bs
-        if kind != "binop":
-            continue
-        rv = info[1]
-        if rv["op"] != op or const_int(rv["b"]) != value:
-            continue
-        if common.reads_field(body, {"k": "use", "op": rv["a"]}, field):
-            out.append((i, t_t, f_t, kind, info))
-    return out
+    for val, nm in t["enum_variants"]:
+        if nm in variant_future and val in arms and variant_future[nm] is not None:
+            out.append((arms[val], variant_future[nm]))
+    return out if len(out) == len(variant_future) else None
 
 
-def classify_waits(S):
+def classify_waits(S, prog=None):
     """Classify the awaits of the scheduler by what they wait for.
-    Returns dict: 'gain' -> ready blocks of awaits completing an ensure_token_or_cheat (directly or as the
-    foreground future of wait_for); 'loss' -> ready blocks of awaits of wait_all (the process may come back
-    with no token)."""
+    Returns dict: 'gain' -> ready blocks of awaits completing an ensure_token_or_cheat (directly, as the
+    foreground future of wait_for, or as an arm of a `select!`: then the block entered on that arm);
+    'loss' -> ready blocks of awaits of wait_all (the process may come back with no token)."""
     ba = BA.of(S)
     gain, loss, other = [], [], []
-    for (pbb, y, ready, callee) in ba.awaits():
-        t = S.blocks[pbb]["term"]
-        sl, origins, _ = backward_direct(S, op_local(t["args"][0]), depth=200)
-        names = set()
-        todo = list(origins)
-        seen_calls = set()
-        while todo:
-            o = todo.pop()
-            if o[0] != "call" or o[1] in seen_calls:
-                continue
-            seen_calls.add(o[1])
-            names.update(callee_paths(o[2]))
-            if call_matches(o[2], r"builder::wait_for"):
-                # the foreground future of wait_for decides what this await waits for
-                _, org2, _ = backward_direct(S, op_local(o[2]["args"][0]), depth=200)
-                todo.extend(org2)
+
+    def put(pbb, ready, names):
         if any(n.endswith("JobServerHandle::ensure_token_or_cheat") for n in names):
             gain.append((pbb, ready))
         elif any(n.endswith("JobServerHandle::wait_all") for n in names):
             loss.append((pbb, ready))
         else:
             other.append((pbb, ready, sorted(names)))
+
+    for (pbb, y, ready, callee) in ba.awaits():
+        t = S.blocks[pbb]["term"]
+        names, origins = future_names(S, op_local(t["args"][0]))
+        arms = select_arms(prog, S, pbb, origins) if prog is not None else None
+        if arms is not None:
+            for blk, fl in arms:
+                put(pbb, blk, future_names(S, fl)[0])
+        else:
+            put(pbb, ready, names)
     return {"gain": gain, "loss": loss, "other": other}
 
 
@@ -469,7 +807,7 @@ def token_preconditions(ctx, rid, include_release_mine):
     S = anchors.scheduler(prog)
     ba = BA.of(S)
     start_key = anchors.job_start(prog).key
-    cw = classify_waits(S)
+    cw = classify_waits(S, prog)
     gains = {r for _, r in cw["gain"] if r is not None}
     ctx.floor(rid, "awaited ensure_token_or_cheat in the scheduler", len(gains), 2)
     ctx.floor(rid, "awaited wait_all in the scheduler", len(cw["loss"]), 1)
